@@ -76,8 +76,18 @@ class Prop(core.Prop):
                         for r in (1, 2, 3):
                             for sub in itertools.combinations(['t', 'z', 'x'], r):
                                 yield {'file': frec, 'dims': list(sub)}
+        # IOAPI-class files (their own copyVariable / apply wrapper) with a float and an integer variable
+        from .. import ioapi_u
+        for start in (0, 2):
+            for masked in (False, True):
+                yield {'ioapi': ioapi_u.recipe(nt=2, nl=2, nr=2, nc=3, nv=2, start=start, masked=masked)}
 
     def expand(self, group):
+        if 'ioapi' in group:
+            for d in ('LAY', 'ROW', 'COL'):
+                for f in FN:
+                    yield {'ioapi': group['ioapi'], 'funcs': [[d, list(f)]]}
+            return
         dims = group['dims']
         if len(dims) == 3 and self.tier == 'quick':
             combos = [(f, f, f) for f in FN]
@@ -96,12 +106,81 @@ class Prop(core.Prop):
             for mode, w in CONV:
                 yield {'file': group['file'], 'funcs': [[dims[0], ['c', mode, w]]],
                        'form': 'convolve_dim'}
+            if dims[0] == 'x':
+                # fuzzy dimension matching of the string form: 'x' also names 'x7' (digits only), never 'x_2'
+                for r in STRRED[:4]:
+                    yield {'file': group['file'], 'funcs': [['x', ['r', r]]], 'form': 'reduce_dim', 'fuzzy': True}
+
+    def run_ioapi(self, case):
+        from .. import ioapi_u
+        real = ioapi_u.build(case['ioapi'])
+        v = real.createVariable('ICNT', 'i', ('TSTEP', 'LAY', 'ROW', 'COL'))
+        v.units, v.long_name, v.var_desc = 'count'.ljust(16), 'ICNT'.ljust(16), 'ICNT'.ljust(80)
+        v[...] = (np.arange(int(np.prod(v.shape))) * 3 + 1).reshape(v.shape)
+        real.updatemeta()
+        full = lib.snap(real)
+        # reference: the data variables only (time flags and IOAPI metadata are C10's business)
+        rf = rfile.RFile()
+        rf.cls = full.cls
+        for d in ('TSTEP', 'LAY', 'ROW', 'COL'):
+            rf.dims[d] = list(full.dims[d])
+        for k, var in full.vars.items():
+            if k not in ('TFLAG', 'ETFLAG'):
+                rf.vars[k] = var
+        (d_, f_), = [(d, tuple(f)) for d, f in case['funcs']]
+        fcls = fn_class(f_)
+        sig = ('ioapi.applyAlongDimensions', f_[0])
+        states = [rfile.canon(rf)]
+        vs = []
+        try:
+            exps = rops.rapply_orders(rf, OrderedDict([(d_, f_)]))
+        except rops.OutOfDomain:
+            return result('ood-raise', [], states)
+        try:
+            got = real.applyAlongDimensions(**{d_: fn_to_py(f_)})
+        except Exception as e:
+            vs.append(viol('in-domain-raises', sig, '%s: %r' % (type(e).__name__, e), funcs=fcls, ioapi=True))
+            return result('viol', vs, states)
+        snap = lib.snap(got)
+        exp0 = exps[0]
+        for k, ev in exp0.vars.items():
+            if k not in snap.vars:
+                vs.append(viol('variable-missing', sig, k, funcs=fcls, ioapi=True))
+                continue
+            gv = snap.vars[k]
+            dd = rfile.var_diff(k, gv, ev, dtype=True, attrs=False, fill=False, dims=True)
+            if dd:
+                clause = 'dtype-differs' if any('dtype' in x for x in dd) else 'values-differ'
+                vs.append(viol(clause, sig + (k,), '; '.join(dd)[:800], funcs=fcls, ioapi=True,
+                               varkind='int' if k == 'ICNT' else 'float'))
+        ec = rfile.canon(exp0)
+        return result('viol' if vs else 'ok', vs, states + [ec], 1,
+                      h64(states[0], case['funcs'], ec) if ec != states[0] else None,
+                      rfile.canon(snap) if not vs else None)
+
+    def add_fuzzy(self, real):
+        """extra dimensions x7 (a fuzzy match of 'x') and x_2 (not one) with variables on them"""
+        real.createDimension('x7', 2)
+        real.createDimension('x_2', 2)
+        p = real.createVariable('P7', 'd', ('x7', 'x'))
+        p.units = 'm'
+        p[...] = np.arange(2 * len(real.dimensions['x']), dtype='d').reshape(2, -1) * 1.5 + 1
+        q = real.createVariable('Q2', 'd', ('x_2',))
+        q.units = 'm'
+        q[...] = [4., 9.]
+        return real
 
     def run_one(self, case):
+        if 'ioapi' in case:
+            return self.run_ioapi(case)
         real = lib.to_real(rfile.ufile(case['file']))
+        if case.get('fuzzy'):
+            real = self.add_fuzzy(real)
         rf = lib.snap(real, cls='PseudoNetCDFFile')
         before = rfile.canon(rf)
         dimfuncs = OrderedDict((d, tuple(f)) for d, f in case['funcs'])
+        if case.get('fuzzy'):
+            dimfuncs['x7'] = dimfuncs['x']
         fcls = '+'.join(sorted(fn_class(f) for f in dimfuncs.values()))
         kinds = '+'.join(sorted(set(f[0] for f in dimfuncs.values())))
         refuncs = OrderedDict((d, ('f', f[1]) if f[0] == 'd' else f) for d, f in dimfuncs.items())
@@ -119,7 +198,7 @@ class Prop(core.Prop):
                 got = real.applyAlongDimensions(**kw)
             elif form == 'reduce_dim':
                 from PseudoNetCDF.core._functions import reduce_dim
-                (d_, f_), = dimfuncs.items()
+                d_, f_ = list(dimfuncs.items())[0]
                 got = reduce_dim(real, '%s,%s' % (d_, f_[1]))
             else:
                 from PseudoNetCDF.core._functions import convolve_dim
@@ -189,7 +268,8 @@ class Prop(core.Prop):
                 vs.append(viol(clause, (opname, kinds, vkind),
                                '%s: %s' % (k, why), funcs=fcls, varkind=vkind))
         # commuting reducers: result independent of the order dimensions are named
-        if len(dimfuncs) == 2 and all(f[0] == 'r' and f[1] in COMMUTING for f in dimfuncs.values()):
+        if form == 'method' and len(dimfuncs) == 2 and all(f[0] == 'r' and f[1] in COMMUTING
+                                                           for f in dimfuncs.values()):
             kw2 = OrderedDict(reversed(list(kw.items())))
             try:
                 got2 = lib.snap(lib.to_real(rfile.ufile(case['file'])).applyAlongDimensions(**kw2),
